@@ -146,20 +146,33 @@ def h_nldf(env, version, level, rho_mult, specs, l1=()):
         env.equal("l1_entry%d_is_zero" % k, vec[len(specs) + k], 0)
 
 
-def h_fraclapl(env):
+def h_fraclapl(env, lo="-1/4", hi="1"):
+    """FracLaplSettings.ueg_vector against the plane-wave integral (1/pi^2) int_0^kf k^(2+2s) dk = kf^(3+2s) / (pi^2 (3+2s)) for a
+    symbolic s; scipy's Gamma function (only reachable through the helper _get_fl_ueg) is an uninterpreted function here"""
     st = env.m.settings
-    rho, u = _rho(env)
-    s_ = env.par("s", "real", lo="-1/4", hi="1")
-    env.eps_zero()
-    fl = st.FracLaplSettings([0.5, 1.0], 1, 1, [(-1, 0)])
-    fl.slist = [s_, 1.0]
-    vec = fl.ueg_vector(rho)
-    pi = _pi(env)
-    kf = (3 * pi * pi * rho) ** env.const(Fraction(1, 3))
-    want = kf ** (3 + 2 * s_) / (pi * pi * (3 + 2 * s_))
-    env.equal("fraclapl_l0", vec[0], want)
-    env.equal("fraclapl_l1_zero", vec[1], 0)
-    env.check("length", len(vec) == fl.nfeat)
+    if env.sym:
+        from .. import dag
+        from ..sym import S, lift
+        real_gamma = st.gamma_func
+        st.gamma_func = lambda x: S(dag.uf("Gamma", (lift(x),))) if isinstance(x, S) else real_gamma(x)
+    try:
+        rho, u = _rho(env)
+        s_ = env.par("s", "real", lo=lo, hi=hi)
+        env.eps_zero()
+        fl = st.FracLaplSettings([0.5, 1.0], 1, 1, [(-1, 0)])
+        fl.slist = [s_, 1.0]
+        ok, vec = env.attempt("ueg_vector_returns", lambda: fl.ueg_vector(rho))
+        if not ok:
+            return
+        pi = _pi(env)
+        kf = (3 * pi * pi * rho) ** env.const(Fraction(1, 3))
+        want = kf ** (3 + 2 * s_) / (pi * pi * (3 + 2 * s_))
+        env.equal("fraclapl_l0", vec[0], want)
+        env.equal("fraclapl_l1_zero", vec[1], 0)
+        env.check("length", len(vec) == fl.nfeat)
+    finally:
+        if env.sym:
+            st.gamma_func = real_gamma
 
 
 def h_normalizer_ueg(env, cls, inh_ueg=0):
@@ -291,7 +304,8 @@ def tasks(tier):
             out.append(Task("nldf/i/%s/%s" % (level, rm), h_nldf, dict(version="i", level=level, rho_mult=rm, specs=i_specs, l1=(0,))))
             out.append(Task("nldf/j/%s/%s" % (level, rm), h_nldf, dict(version="j", level=level, rho_mult=rm, specs=j_specs)))
             out.append(Task("nldf/k/%s/%s" % (level, rm), h_nldf, dict(version="k", level=level, rho_mult=rm, specs=["se", "se"])))
-    out.append(Task("fraclapl", h_fraclapl, {}))
+    out.append(Task("fraclapl", h_fraclapl, {}, max_paths=64))
+    out.append(Task("fraclapl/s>1", h_fraclapl, dict(lo="17/16", hi="3"), max_paths=64))
     for cls in ("ConstantNormalizer", "DensityNormalizer", "InhomogeneityNormalizer", "GeneralNormalizer"):
         out.append(Task("normalizer_ueg/%s/gga_modes" % cls, h_normalizer_ueg, dict(cls=cls, inh_ueg=0)))
         out.append(Task("normalizer_ueg/%s/mgga_modes" % cls, h_normalizer_ueg, dict(cls=cls, inh_ueg=1)))
